@@ -77,6 +77,7 @@ pub fn decode_history(data: &[u8]) -> HistorySpec {
                 rng_seed: b.u32() as u64,
                 threads: 1,
                 cancel_at: None,
+                twice: flags % 5 == 0,
             }]
         } else {
             vec![]
